@@ -351,7 +351,7 @@ def _simulate(vfault, scene, plan):
     vfault.COUNTS.clear()
     sim = _make_simulator(vfault)
     old = signal.signal(signal.SIGALRM, _alarm)
-    signal.alarm(30)
+    signal.alarm(_state.get("alarm", 30))
     try:
         return ("ok", sim.simulate(scene, maxSteps=10, maxIterations=1))
     except _Timeout:
@@ -408,7 +408,8 @@ REUSE_OPS = ["simulate-same", "generate-simulate", "recompile"]
 def _job(item):
     """Runs in a forked child with a pristine interpreter state inherited from the parent:
     one fault schedule (or the census / reference when plan is None)."""
-    variant, plan, op = item
+    variant, plan, op = item[:3]
+    _state["alarm"] = item[3] if len(item) > 3 else 30
     vfault = _install(_state["scratch"])
     _wrap(vfault)
     text = _state["texts"][variant]
@@ -575,6 +576,11 @@ def main(tier):
                     for op in ops_:
                         jobs.append((v, [site, n, kind], op))
     results = pmap(_job, jobs, procs=4, fresh=True)
+    # a watchdog timeout under machine load must not become a verdict: such a schedule is run again, alone,
+    # with a generous limit; only a reproducible timeout is reported
+    for i, r in enumerate(results):
+        if r.get("fault_outcome") == "timeout" or str(r.get("reuse", "")).startswith("timeout"):
+            results[i] = pmap(_job, [tuple(jobs[i]) + (300,)], procs=1, fresh=True)[0]
     traces, trace_owner = [], []
     for job, r in zip(jobs, results):
         v, plan, op = job
